@@ -7,9 +7,12 @@ package main
 // the answer computed for its own arguments.  G goroutines call through one bus.Client over an
 // in-memory connection to an echo peer that answers every call with its own payload and records the
 // identifiers it sees.  Verdicts: no identifier twice, no caller receives another call's payload, every
-// call returns.
+// call returns.  The arguments come in several sizes (8 bytes mostly, now and then 300 bytes, 70 kB or
+// 200 kB, each filled with a pattern of its own call): a request or an answer of any size is ONE frame
+// between the frames of the other callers, in both directions.
 
 import (
+	"bytes"
 	"encoding/binary"
 	"fmt"
 	"strconv"
@@ -68,15 +71,27 @@ func cmdC04IDs(args []string) {
 		wg.Add(1)
 		go func(w int) {
 			defer wg.Done()
-			buf := make([]byte, 8)
 			for i := 0; i < n; i++ {
+				size := 8
+				switch {
+				case (i+w*17)%1024 == 1000:
+					size = 200000
+				case (i+w*17)%256 == 200:
+					size = 70000
+				case (i+w*17)%64 == 33:
+					size = 300
+				}
+				buf := make([]byte, size)
 				binary.LittleEndian.PutUint32(buf[0:4], uint32(w))
 				binary.LittleEndian.PutUint32(buf[4:8], uint32(i))
+				for k := 8; k < size; k++ {
+					buf[k] = byte(k*7 + w*31 + i*13)
+				}
 				done := make(chan struct{})
 				var out []byte
 				var err error
 				go func() {
-					out, err = client.Call(nil, 7, 1, 100, append([]byte{}, buf...))
+					out, err = client.Call(nil, 7, 1, 100, buf)
 					close(done)
 				}()
 				select {
@@ -89,9 +104,13 @@ func cmdC04IDs(args []string) {
 					atomic.AddInt64(&failed, 1)
 					continue
 				}
-				if len(out) != 8 || binary.LittleEndian.Uint32(out[0:4]) != uint32(w) || binary.LittleEndian.Uint32(out[4:8]) != uint32(i) {
+				if !bytes.Equal(out, buf) {
 					if atomic.AddInt64(&crossed, 1) == 1 {
-						firstCross.Store(fmt.Sprintf("goroutine %d call %d received % x", w, i, out))
+						h := out
+						if len(h) > 16 {
+							h = h[:16]
+						}
+						firstCross.Store(fmt.Sprintf("goroutine %d call %d (argument of %d bytes) received %d bytes starting % x", w, i, size, len(out), h))
 					}
 				}
 			}
